@@ -221,7 +221,12 @@ def prepare(repo, tier, seed):
     if len(got) < len(cases):
         raise RuntimeError("native dump stage failed (%d of %d instances): %s" % (len(got), len(cases), (p.stdout + p.stderr)[-800:]))
     out = [open(os.path.join(HERE, "u6_jit.rs.in")).read().replace("VERIF_U6_MODEL", model)
-           .replace("VERIF_PARAM_PROVE_EMISSION", "true" if tier == "thorough" else "false")]
+           .replace("VERIF_PARAM_PROVE_EMISSION", "false")]
+    # thorough tier: for a subset (the MUST list, the branches, the moves) ALSO prove inside Kani
+    # that the real emitter produces exactly the stage-1 bytes (48-200 s each)
+    prove = set()
+    if tier == "thorough":
+        prove = {_name(w, i, live) for w, i, live in MUST} | {b[0] for b in BRANCHES} | {m[0] for m in MOVS}
     for n, w, ins, live, temps, lim, safe, mn, mx, call in cases:
         hexs = got[n]
         if hexs == "PANIC":
@@ -232,6 +237,10 @@ def prepare(repo, tier, seed):
         steps = ["    m.exec(%s);" % u for u in uops.get(n, "Unsupported").split(" ;; ")]
         out.append("const CODE_%s: [u8; %d] = [%s];\nfn run_%s(m: &mut M) {\n%s\n}\n#[kani::proof]\n#[kani::unwind(%d)]\nfn %s() {\n    %s;\n}\n" % (
             n.upper(), len(bs), ", ".join("0x" + b for b in bs), n, "\n".join(steps), max(len(bs) + 3, 18), n, call))
+        if n in prove:
+            kind = "true" if "check_branch" in call else "false"
+            out.append("#[kani::proof]\n#[kani::unwind(%d)]\nfn %s_emits() {\n    prove_emission::<%s>(&CODE_%s, %s, 0x%x, %d, %s, %s, %s, %s, %s);\n}\n" % (
+                max(len(bs) + 3, 18), n, w, n.upper(), ins, live, temps, "true" if lim else "false", "true" if safe else "false", mn, mx, kind))
     return [{"src": "\n".join(out), "dest": "src/exec/basejit/verif_u6_jit.rs",
              "mod_in": "src/exec/basejit/codegen.rs", "mod_name": "verif_u6", "params": {}}]
 
@@ -263,6 +272,11 @@ def harnesses(tier, seed):
                    "properties": ["C03", "C07"], "bounded_by": "one branch, concrete condition offset",
                    "complete_over": "all machine states", "timeout": t,
                    "allow_unreachable": ["m.jumped == Some(64)", "m.ctx[3] == budget - 1", "cg.code.len() == expect.len()", "cg.code[i] == expect[i]"]})
+    if tier == "thorough":
+        for n in [_name(w, i, live) for w, i, live in MUST] + [b[0] for b in BRANCHES] + [m[0] for m in MOVS]:
+            hs.append({"name": MOD + n + "_emits", "function": "basejit::CodeGen::{emit_program, fix_relocations} + asm.rs emitters (symbolic execution of the real emitter)",
+                       "clause": "the real emitter appends exactly the bytes the native stage recorded for this instance",
+                       "properties": ["C03"], "bounded_by": "one concrete instruction", "complete_over": "-", "timeout": 1500})
     for n, w, s in MOVS:
         hs.append({"name": MOD + n, "function": "basejit::CodeGen::emit_program (Mov arm, safe == false) <%s>" % w,
                    "clause": "unchecked move: rbp += shift * cell size and nothing else (no probe, no call, no other register or memory touched)",
